@@ -15,8 +15,9 @@ Oracle (from the property text, not from the code):
   * repeated augmentation (DistributedSampler / RandomSampler): D consists of runs of num_repeats equal entries (last
     run possibly cut) whose heads are pairwise distinct, len(D) == len(dataset);
   * rank / world size given explicitly are honoured whatever the process' own default process group says, and the
-    defaults (rank=None) resolve to the process group's rank / world size (driven through torch's single-process
-    "fake" process group).
+    defaults (rank=None) resolve to the process group's rank / world size at the time the sampler is built (driven
+    through torch's single-process "fake" process group; every such case asks the library without a group, creates the
+    group, asks again, destroys it and asks again, so a stale answer in either direction is observable).
 """
 from __future__ import annotations
 
@@ -51,12 +52,12 @@ ASSUMPTIONS = [
     "and weighted samplers either a < W tail cut or a < W wrap-around is accepted (the property allows both)",
     "not driven (property silent / repository guards): empty datasets, num_repeats>1 with shuffle=False outside the enumerated "
     "refusal class, class-balanced datasets with absent classes or samples_per_class=0, weighted size=0 / size>len / fewer "
-    "non-zero weights than requested draws, RandomSampler(replacement=True / num_samples=...) for the run clause, seed "
+    "non-zero weights than requested draws, RandomSampler(num_samples=...); with replacement=True the run heads need not be distinct, seed "
     "dependence of the draw (only (seed, epoch) reproduction is claimed), what an unshuffled draw looks like",
     "the ambient-process-group cases need torch.testing._internal.distributed.fake_pg (single process, no network); if it "
     "is unavailable the run is inconclusive, not held",
 ]
-MONITORS = ["rank_streams_observed", "split_checked", "reproduction_checked", "epoch_difference_checked",
+MONITORS = ["rank_streams_observed", "repeat_runs_with_replacement_checked", "group_lifecycle_checked", "split_checked", "reproduction_checked", "epoch_difference_checked",
             "repeat_runs_checked", "pad_wraparound_checked", "tail_cut_checked", "step_budget_runs", "ambient_pg_checked"]
 
 P_MAX = 1e-15  # per-comparison bound for the statistical clause "another epoch gives another draw"
@@ -159,6 +160,7 @@ def _one(rng, kind):
     elif sub == "random":
         spec["R"] = rng.choice([1, 2, 3, 4])
         spec["gen"] = rng.random() < 0.8
+        spec["replacement"] = rng.random() < 0.45
         spec["W"] = 1
     if n < 2:
         spec["_trivial"] = True
@@ -169,7 +171,7 @@ def gen_cases(run):
     total = run.n(3600, 160000)
     rng = run.rng
     for i in range(total):
-        kind = KINDS[i % len(KINDS)] if i < 6 * len(KINDS) else rng.choices(KINDS, weights=[5, 4, 4, 1, 2])[0]
+        kind = KINDS[i % len(KINDS)] if i < 6 * len(KINDS) else rng.choices(KINDS, weights=[5, 4, 4, 2, 2])[0]
         spec = _one(rng, kind)
         if i == 0:
             # the tiny-dataset padding path of repeated augmentation (2n < W) is always driven once
@@ -382,7 +384,9 @@ def _check_split(run, spec, sub, lens, Ls, D, W, what):
         run.count("exact_split_checked")
 
 
-def _check_runs(run, sub, D, n, R, what):
+def _check_runs(run, sub, D, n, R, what, distinct_heads=True):
+    """D = runs of R equal entries (slot k*R..(k+1)*R-1 constant, last run possibly cut); heads pairwise distinct unless the
+    draw is with replacement (then a sample may be drawn again, also in the adjacent run)"""
     run.count("repeat_runs_checked")
     if len(D) != n:
         run.violation(f"{sub}:repeat-length", f"{what}: global draw has {len(D)} entries for a dataset of {n} (num_repeats={R})")
@@ -394,7 +398,7 @@ def _check_runs(run, sub, D, n, R, what):
             run.violation(f"{sub}:repeat-runs", f"{what}: slots {a}..{a + len(chunk) - 1} of the global draw {_s(D)} are not {R} copies of one sample")
             return
         heads.append(chunk[0])
-    if len(set(heads)) != len(heads):
+    if distinct_heads and len(set(heads)) != len(heads):
         run.violation(f"{sub}:repeat-heads-not-distinct", f"{what}: a sample occupies more than one run of the global draw {_s(D)} (num_repeats={R})")
 
 
@@ -510,14 +514,15 @@ def run_case(run, spec):
 
 def _run_random(run, spec):
     n, R = spec["n"], spec["R"]
-    run.cover("random", R > 1, spec["gen"], min(n, 3), n % R == 0)
-    what = f"RandomSampler(n={n}, num_repeats={R}, generator={'seeded' if spec['gen'] else None})"
+    repl = bool(spec.get("replacement", False))
+    run.cover("random", R > 1, spec["gen"], min(n, 3), n % R == 0, repl)
+    what = f"RandomSampler(n={n}, num_repeats={R}, replacement={repl}, generator={'seeded' if spec['gen'] else None})"
     draws = []
     for rep in range(2):
         _seed_globals(spec["g"] if not spec["gen"] else spec["g"] + rep)
         g = torch.Generator().manual_seed(spec["seed"]) if spec["gen"] else None
         ds = list(range(n))
-        s = _construct(run, spec, "random", lambda: RandomSampler(ds, num_repeats=R, generator=g), what + " ctor")
+        s = _construct(run, spec, "random", lambda: RandomSampler(ds, replacement=repl, num_repeats=R, generator=g), what + " ctor")
         ln, L = _stream(run, spec, "random", s, what, n)
         run.count("rank_streams_observed")
         if ln != len(L):
@@ -525,7 +530,9 @@ def _run_random(run, spec):
             return
         if not _check_valid(run, "random", L, n, what):
             return
-        _check_runs(run, "random", L, n, R, what)
+        _check_runs(run, "random", L, n, R, what, distinct_heads=not repl)
+        if repl:
+            run.count("repeat_runs_with_replacement_checked")
         draws.append(L)
     run.count("reproduction_checked")
     if draws[0] != draws[1]:
@@ -545,6 +552,46 @@ def _fake_pg():
             _fake["mod"] = None
             _fake["err"] = repr(e)
     return _fake["mod"]
+
+
+def _helpers(run, what):
+    """(is_distributed, rank, world size) as the library's public helpers report them; None if they are not there"""
+    import kappadata.utils.distributed as kdd
+    fns = [getattr(kdd, k, None) for k in ("is_distributed", "get_rank", "get_world_size")]
+    if not all(callable(f) for f in fns):
+        run.count("distributed_helpers_absent")
+        return None
+    run.count("step_budget_runs")
+    with StepBudget(2000, _CODES(), what=what):
+        ok, v = call_real(run, lambda: (bool(fns[0]()), operator.index(fns[1]()), operator.index(fns[2]())), crash_key="helpers:crash", what=what)
+    if not ok:
+        raise _Abort()
+    return v
+
+
+def _default_stream(run, spec, sub, ds, e, what, eff):
+    s = _construct(run, spec, sub, lambda: _make(spec, sub, ds, None, None, defaults=True), what + " default-rank ctor")
+    _set_epoch(run, sub, s, e, what)
+    run.count("rank_streams_observed")
+    return _stream(run, spec, sub, s, what + " default rank/world size", eff)
+
+
+def _lifecycle_no_group(run, spec, sub, ds, e0, D, what, eff, phase):
+    """no default process group (before one is created / after it was destroyed): the library must see rank 0 of 1"""
+    key = "without-process-group" if phase == "before" else "stale-after-group-destroyed"
+    h = _helpers(run, f"{what}: helpers {phase} the group")
+    run.count("group_lifecycle_checked")
+    if h is not None and h != (False, 0, 1):
+        run.violation(f"helpers:{key}", f"{what}: no process group is initialised ({phase} the group's lifetime) but "
+                                        f"(is_distributed, get_rank, get_world_size) = {h}")
+        return False
+    if sub in ("classbalanced", "weighted"):   # torch's DistributedSampler refuses defaults without a group
+        ln, L = _default_stream(run, spec, sub, ds, e0, f"{what} [{phase} group]", eff)
+        if (ln, L) != (len(D[e0]), D[e0]):
+            run.violation(f"{sub}:defaults-{key}", f"{what}: no process group is initialised ({phase} the group's lifetime) but the sampler built "
+                                                   f"without rank/world size yields len={ln} {_s(L)}, rank 0 of 1 yields len={len(D[e0])} {_s(D[e0])}")
+            return False
+    return True
 
 
 def _run_ambient(run, spec):
@@ -578,14 +625,19 @@ def _run_ambient(run, spec):
         return
     if dist.is_initialized():
         dist.destroy_process_group()
+    # deliberate sequence: the library is asked WITHOUT a group -> group created -> asked again -> group destroyed -> asked again
+    if not _lifecycle_no_group(run, spec, sub, ds, e0, D, what, eff, "before"):
+        return
     dist.init_process_group(backend="fake", rank=pgr, world_size=pgW, store=FakeStore())
     try:
+        h = _helpers(run, f"{what}: helpers under the group")
+        if h is not None and h != (True, pgr, pgW):
+            run.violation("helpers:not-from-process-group", f"{what}: (is_distributed, get_rank, get_world_size) = {h} while the default "
+                                                            f"process group is rank {pgr} of {pgW}")
+            return
         # (a) defaults resolve to the process group
-        s = _construct(run, spec, sub, lambda: _make(spec, sub, ds, None, None, defaults=True), what + " default-rank ctor")
-        _set_epoch(run, sub, s, e0, what)
-        got_len, got = _stream(run, spec, sub, s, what + " default rank/world size", eff)
+        got_len, got = _default_stream(run, spec, sub, ds, e0, what, eff)
         run.count("ambient_pg_checked")
-        run.count("rank_streams_observed")
         if (got_len, got) != (want_len, want):
             run.violation(f"{sub}:defaults-not-from-process-group",
                           f"{what}: sampler built without rank/world size yields len={got_len} {_s(got)}, the explicit (rank={pgr}, world={pgW}) sampler yields len={want_len} {_s(want)}")
@@ -605,5 +657,6 @@ def _run_ambient(run, spec):
     finally:
         if dist.is_initialized():
             dist.destroy_process_group()
+    _lifecycle_no_group(run, spec, sub, ds, e0, D, what, eff, "after")
 
 
